@@ -26,10 +26,13 @@ META = {
                  "is validated by TLC against the contract; random larger and collection-derived graphs likewise",
     "level_text": "Small-scope exhaustive: every DAG with <= 5 nodes in canonical numbering under every task/plain kind assignment, "
                   "every such graph with <= 4 nodes and 1-2 references to external keys, every cyclic digraph with <= 3 nodes under "
-                  "every kind assignment, every second cyclic 4-node digraph all-task / all-plain (thorough tier; the quick "
-                  "tier is exhaustive up to 4 / 3 / 3 nodes and takes every second 5-node DAG and 4-node external-reference graph and "
-                  "1/32 of the cyclic 4-node digraphs); thorough adds stride samples of the 6-node DAGs (1/32) and of the 5-node "
-                  "graphs with external references (1/8). Cases are built as legacy, Task-object and mixed graphs with scrambled names and "
+                  "every kind assignment, every fifth cyclic 4-node digraph all-task / all-plain (thorough tier; the quick "
+                  "tier is exhaustive up to 4 / 3 / 3 nodes and takes every third 5-node DAG and 4-node external-reference graph and "
+                  "1/31 of the cyclic 4-node digraphs); thorough adds stride samples of the 6-node DAGs (1/61) and of the 5-node "
+                  "graphs with external references (1/13). A structured family of 6-9 key graphs (1-2 literal data roots, 2-3 tasks, "
+                  "3-4 nested non-task list nodes of arity 2-3 over earlier keys: the da.store / delayed-list shapes) is enumerated "
+                  "by TLC too: all 6-key and a stride sample of the 7-9 key shapes in the quick tier (~5 000 graphs), all shapes up "
+                  "to 7 keys and samples of the 8-9 key shapes in the thorough tier, in the legacy and mixed spellings. Cases are built as legacy, Task-object and mixed graphs with scrambled names and "
                   "insertion order; TLC decides each recorded call of dask.order.order against the contract (domain, distinctness, "
                   "dependencies first, cycles rejected). Hand-written witnesses, seeded random graphs (<= ~45 nodes) and graphs of "
                   "real array/bag/delayed/dataframe collections are recorded and decided the same way.",
@@ -148,6 +151,12 @@ def classify(rec, clauses):
         pr = {k: p for k, p in rec["prio"]}
         rest_ok = len({pr[k] for k in alive if k in pr}) == len([k for k in alive if k in pr]) and all(
             pr[k] > pr[d] for k in alive for d in inner[k - 1] if d in alive and k in pr and d in pr)
+        # a literal data root that was parked on removed list nodes and shares its priority with another key
+        byp = {}
+        for k, p in rec["prio"]:
+            byp.setdefault(p, []).append(k)
+        if any(len(ks) > 1 and any(1 <= k <= n and kinds[k - 1] == "p" and not inner[k - 1] for k in ks) for ks in byp.values()):
+            return "released-data-root:priority-collision"
         if rest_ok:
             return "nontask-leaves>=2:priority-collision"
     ext = any(d > n for ds in deps for d in ds)
@@ -199,8 +208,13 @@ def report(ctx, recs, bad):
 INVS = ["DagSatisfiable", "ReversedRejected", "CyclicUnsatisfiable", "ExternalRejected", "FamilyShape"]
 
 
-def job(fam, n, allkinds=True, maxext=0, stride=1, offset=0):
-    return {"fam": fam, "n": n, "allkinds": allkinds, "maxext": maxext, "stride": stride, "offset": offset}
+def job(fam, n, allkinds=True, maxext=0, stride=1, offset=0, d=0, t=0):
+    return {"fam": fam, "n": n, "allkinds": allkinds, "maxext": maxext, "stride": stride, "offset": offset, "d": d, "t": t}
+
+
+def nest(d, t, lists, stride, rng):
+    """nested non-task list nodes over d shared literal data roots and t shared tasks (da.store / delayed-list shapes)"""
+    return job("nest", d + t + lists, stride=stride, offset=rng.randrange(stride), d=d, t=t)
 
 
 def plans_for(ctx):
@@ -211,20 +225,29 @@ def plans_for(ctx):
     small = ([job("dag", n) for n in range(1, 6)] + [job("ext", n, maxext=2) for n in range(1, 5)]
              + [job("cyc", n) for n in range(1, 4)])
     if ctx.quick:
-        # exhaustive up to 4 nodes; of the 5-node DAGs / 4-node external-reference graphs every second code
-        # (the thorough tier takes all of them)
-        return [[job("dag", n) for n in range(1, 5)] + [job("dag", 5, stride=2, offset=off(2))]
-                + [job("ext", n, maxext=2) for n in range(1, 4)] + [job("ext", 4, maxext=2, stride=2, offset=off(2))]
+        # exhaustive up to 4 nodes; of the 5-node DAGs / 4-node external-reference graphs every third code
+        # (the thorough tier takes all of them).  Strides are odd / prime: a power of two would pin the low bits
+        # of the code, i.e. the first edges of every sampled graph
+        return [[job("dag", n) for n in range(1, 5)] + [job("dag", 5, stride=3, offset=off(3))]
+                + [job("ext", n, maxext=2) for n in range(1, 4)] + [job("ext", 4, maxext=2, stride=3, offset=off(3))]
                 + [job("cyc", n) for n in range(1, 4)]
-                + [job("cyc", 4, allkinds=False, stride=32, offset=off(32))]]
+                + [job("cyc", 4, allkinds=False, stride=31, offset=off(31))]
+                # 6-9 keys, structured (stride over the codes of the family; ~10 % of the codes have arity 2-3)
+                + [nest(1, 2, 3, 1, ctx.rng), nest(1, 2, 4, 17, ctx.rng), nest(2, 2, 3, 17, ctx.rng), nest(1, 3, 3, 17, ctx.rng),
+                   nest(2, 2, 4, 251, ctx.rng), nest(1, 3, 4, 251, ctx.rng), nest(2, 3, 4, 8191, ctx.rng)]]
     return [small,
-            [job("dag", 6, stride=32, offset=off(32))],
-            [job("ext", 5, maxext=2, stride=8, offset=off(8))],
-            [job("cyc", 4, allkinds=False, stride=2, offset=off(2))]]
+            [job("dag", 6, stride=61, offset=off(61))],
+            [job("ext", 5, maxext=2, stride=13, offset=off(13))],
+            [job("cyc", 4, allkinds=False, stride=5, offset=off(5))],
+            [nest(1, 2, 3, 1, ctx.rng), nest(1, 2, 4, 1, ctx.rng), nest(2, 2, 3, 1, ctx.rng), nest(1, 3, 3, 1, ctx.rng)],
+            [nest(2, 2, 4, 31, ctx.rng), nest(1, 3, 4, 31, ctx.rng), nest(2, 3, 3, 3, ctx.rng), nest(2, 3, 4, 509, ctx.rng)]]
 
 
 def forms_for(case, rng, all_forms_upto):
     """every spelling for the small cases, one (seeded) spelling above"""
+    if case["fam"] == "nest":
+        # list nodes only exist as such in the legacy and the mixed spelling (Task-object graphs turn them into tasks)
+        return ["legacy", "mixed"] if case["n"] <= all_forms_upto + 5 else [rng.choice(["legacy", "mixed"])]
     forms = ("taskspec", "mixed") if case["fam"] == "ext" else FORMS
     if case["n"] <= all_forms_upto - {"dag": 0, "ext": 1, "cyc": 2}[case["fam"]]:
         return list(forms)
@@ -307,6 +330,8 @@ def fixed_cases(ctx):
         # a data root shared by two list nodes that are themselves collected by a list leaf
         ([[], [], [], [1, 2, 3], [1, 2, 3], [4, 5]], "tptppp"),
         ([[], [], [], [], [2, 3, 4], [1, 3, 5], [5, 6]], "ptppppp"),
+        # nested lists over a shared literal data root; an inner list is exposed after the root was released
+        ([[], [], [], [2, 3], [1, 2, 3], [1, 2, 4], [5, 6]], "pttpppp"),
         # store-like: data roots, one task layer, two list leaves
         ([[], [], [1], [2], [1, 2], [3, 4], [3, 4]], "ppttttp"),
     ]
@@ -392,7 +417,7 @@ def process(ctx, items, prefix, slice_=50000, extra=()):
         for r in recs:
             fams.setdefault(r.get("fam", "collection"), r)
     for fam, r in sorted(fams.items()):
-        if fam in ("dag", "ext", "cyc"):
+        if fam in ("dag", "ext", "cyc", "nest"):
             ctx.sample({"family": fam, "n": r["n"], "deps": r["deps"], "kinds": r["kinds"], "form": r["variant"]["form"],
                         "res": r["res"], "prio": r["prio"]})
     return set(fams)
@@ -412,13 +437,14 @@ def run(ctx):
             extra = collection_records(ctx)
         fams |= process(ctx, items, "e%d_" % gi, extra=extra)
         del items
-    if not {"dag", "ext", "cyc"} <= fams:
+    if not {"dag", "ext", "cyc", "nest"} <= fams:
         raise MachineryError("case enumeration is missing a family: %s" % sorted(fams))
     sampled = any(j["stride"] > 1 for j in plan)
     ctx.exhaustive = not sampled
     ctx.extra["cases_enumerated_by_tlc"] = total
     ctx.extra["enumeration_plan"] = json.dumps(
-        [[j["fam"], j["n"], "all kinds" if j["allkinds"] else "all-task/all-plain", "stride %d" % j["stride"]]
+        [[j["fam"], j["n"], ("%d data roots + %d tasks + %d lists" % (j["d"], j["t"], j["n"] - j["d"] - j["t"])) if j["fam"] == "nest"
+          else "all kinds" if j["allkinds"] else "all-task/all-plain", "stride %d" % j["stride"]]
          for j in plan])
     ctx.rule = ("cases = TLC-enumerated (graph, kinds, external refs) x spelling (legacy / Task objects / mixed; scrambled names, "
                 "insertion order, alias-vs-list, return_stats) plus seeded random and collection-derived graphs; every call is one "
